@@ -51,6 +51,12 @@ inline std::vector<std::pair<std::string, std::string>> c10_extra_configs()
       " distance {\n group1 {\n atomNumbers 1 2 3\n }\n group2 {\n atomNumbers 50 51\n }\n }\n}\n"
       "harmonic {\n colvars d\n centers 12.0\n forceConstant 1.0\n}\n");
 
+  add("rmsd-inline-reference-and-permutation",
+      "colvarsTrajFrequency 1\n"
+      "colvar {\n name r\n rmsd {\n atoms {\n atomNumbers 1 2 3 4\n }\n"
+      " refPositions (0.0,0.0,0.0) (1.5,0.0,0.0) (1.5,1.5,0.0) (0.0,1.5,1.0)\n atomPermutation 4 3 2 1\n }\n}\n"
+      "harmonic {\n colvars r\n centers 1.0\n forceConstant 1.0\n}\n");
+
   add("colvar-corrfunc",
       "colvarsTrajFrequency 1\n"
       "colvar {\n name d\n outputVelocity on\n corrFunc on\n corrFuncType velocity\n corrFuncLength 2\n corrFuncStride 1\n"
